@@ -216,29 +216,23 @@ def create_table(
             inc_items = [item.get_pos_inc() for item in items]
             maybe_new_state = LRState(grammar, state_id, symbol, inc_items)
             target_state = maybe_new_state
-            try:
-                idx = states.index(maybe_new_state)
-                target_state = states[idx]
-            except ValueError:
-                try:
-                    idx = state_queue.index(maybe_new_state)
-                    target_state = state_queue[idx]
-                except ValueError:
-                    pass
+            # States with the same kernel items. There may be more than one
+            # if merging was refused before.
+            for existing_state in chain(states, state_queue):
+                if existing_state == maybe_new_state and (
+                    itemset_type is not LR_1
+                    # LALR: Try to merge states, i.e. update items follow
+                    # sets. A state with the same follow sets always merges
+                    # so the number of states is finite.
+                    or merge_states(existing_state, maybe_new_state)
+                ):
+                    target_state = existing_state
+                    break
 
             if target_state is maybe_new_state:
                 # We've found a new state. Register it for later processing.
                 state_queue.append(target_state)
                 state_id += 1
-            else:
-                # A state with this kernel items already exists.
-                # LALR: Try to merge states, i.e. update items follow sets.
-                if itemset_type is LR_1 and not merge_states(
-                    target_state, maybe_new_state
-                ):
-                    target_state = maybe_new_state
-                    state_queue.append(target_state)
-                    state_id += 1
 
             # Create entries in GOTO and ACTION tables
             if isinstance(symbol, NonTerminal):
